@@ -687,12 +687,20 @@ impl PreferenceManager {
         // don't do an update if the value hasn't changed
         let mut is_user_pref = true;
         if let Some(pref_value) = self.api_prefs.prefs.get(key) {
-            if pref_value.as_str().unwrap() != value {
+            let is_changed = match pref_value.as_str() {
+                Some(old_value) => old_value != value,
+                None => bail!("{} is not a string-valued MathCAT preference: can't set it to '{}'", key, value),
+            };
+            if is_changed {
                 is_user_pref = false;
                 self.reset_files_from_preference_change(key, value)?;
             }
         } else if let Some(pref_value) = self.user_prefs.prefs.get(key) {
-            if pref_value.as_str().unwrap() != value {
+            let is_changed = match pref_value.as_str() {
+                Some(old_value) => old_value != value,
+                None => bail!("{} is not a string-valued MathCAT preference: can't set it to '{}'", key, value),
+            };
+            if is_changed {
                 self.reset_files_from_preference_change(key, value)?;
             }
         } else {
@@ -755,6 +763,12 @@ impl PreferenceManager {
         };
 
         self.api_prefs.prefs.insert(key.to_string(), Yaml::Real(value.to_string()));
+    }
+
+    /// Returns true if `key` is a known preference whose value is a boolean
+    pub fn is_boolean_pref(&self, key: &str) -> bool {
+        let value = self.api_prefs.prefs.get(key).or_else(|| self.user_prefs.prefs.get(key));
+        return matches!(value, Some(Yaml::Boolean(_)));
     }
 
     pub fn set_api_boolean_pref(&mut self, key: &str, value: bool) {
